@@ -13,6 +13,7 @@
  *     op = c2k k2c      : cmyk_ycck_convert (jccolor.c) / ycck_cmyk_convert (jdcolor.c), cs = JCS_CMYK
  *     op = y5 r5 g5 [d] : the six RGB565 converters of jdcol565.c (d = ordered dither); <bottomup> field =
  *                        bu | mis<<1 | rows_per_call<<3 | first_scanline<<6 (mis = output address modulo 4)
+ *     op = m15 m25 [d]  : merged upsampling to RGB565 (jdmrg565.c), same <bottomup> field
  *     op = m1 m2        : merged upsampling h2v1 / h2v2 (jdmerge.c/jdmrgext.c or SIMD)
  * API cases (property oracle, judged by checks/C10.py; independent of the model):
  *   enc <bits> <w> <h> <subsamp> <qual> <cspace> <lossless> <psv> <pt> <prec> <flags> <seed> <kind>
@@ -215,8 +216,8 @@ static void kernel_decompress(const char *op, int bits, int cs, int w, int h, in
 {
   struct jpeg_decompress_struct d; struct jpeg_error_mgr e;
   unsigned char *jpg = NULL; unsigned long jlen = 0;
-  int merged = (op[0] == 'm'), v2 = !strcmp(op, "m2");
-  int is565 = (op[1] == '5');
+  int merged = (op[0] == 'm'), v2 = (op[0] == 'm' && op[1] == '2');
+  int is565 = (op[1] == '5' || (op[0] == 'm' && op[2] == '5'));
   int jcs = (!strcmp(op, "g2c") || op[0] == 'g') ? JCS_GRAYSCALE : (!strcmp(op, "r2c") || !strcmp(op, "r2g") || (is565 && op[0] == 'r')) ? JCS_RGB :
             !strcmp(op, "k2c") ? JCS_YCCK : JCS_YCbCr;
   int nin = (jcs == JCS_GRAYSCALE) ? 1 : (jcs == JCS_YCCK) ? 4 : 3, ci, i, n;
@@ -234,7 +235,7 @@ static void kernel_decompress(const char *op, int bits, int cs, int w, int h, in
   jpeg_read_header(&d, TRUE);
   d.out_color_space = (J_COLOR_SPACE)cs;
   d.do_fancy_upsampling = merged ? FALSE : TRUE;
-  if (is565) { d.dither_mode = (op[2] == 'd') ? JDITHER_ORDERED : JDITHER_NONE; bu &= 1; }
+  if (is565) { d.dither_mode = (op[strlen(op) - 1] == 'd') ? JDITHER_ORDERED : JDITHER_NONE; bu &= 1; }
   jpeg_start_decompress(&d);
   if (nlists != nin + 1) { printf("err lists %d\n", nlists); goto done; }
   img = malloc(sizeof(void **) * 4);
@@ -260,11 +261,13 @@ static void kernel_decompress(const char *op, int bits, int cs, int w, int h, in
     JDIMENSION in_ctr = 0, out_ctr = 0; int guard = 0;
     if (d.cconvert != NULL && d.upsample == NULL) { printf("err nomerge\n"); goto done; }
     while ((int)out_ctr < h && guard++ < 4 * h + 8) {
+      if (is565) d.output_scanline = (JDIMENSION)(scan0 + out_ctr);   /* as between jpeg_read_scanlines calls */
       if (bits == 8)
         (*d.upsample->upsample) (&d, (JSAMPIMAGE)img, &in_ctr, (JDIMENSION)chh, (JSAMPARRAY)outrows, &out_ctr, (JDIMENSION)h);
       else
         (*d.upsample->upsample_12) (&d, (J12SAMPIMAGE)img, &in_ctr, (JDIMENSION)chh, (J12SAMPARRAY)outrows, &out_ctr, (JDIMENSION)h);
     }
+    d.output_scanline = 0;
   } else if (is565) {
     int r0;
     if (chunk == 0) chunk = h;
@@ -678,6 +681,56 @@ static void do_dec(const par_t *p)
     jpeg_destroy_decompress(&dd);
     free(buf); free(orig); free(rows); free(perm);
     for (i = 0; i < 4; i++) { free(planes[i]); free(prow[i]); }
+  }
+  /* libjpeg API, JCS_RGB565 without dithering: row pointers at 0 / 2 modulo 4, 1..3 scanlines per call, several pitches;
+     every variant must give the 5-6-5 packing of the same JPEG decoded to JCS_RGB and touch nothing else */
+  if (bits == 8 && !p->lossless) {
+    static const int V565[7][3] = { { 0, 1, 0 }, { 2, 1, 0 }, { 2, 2, 0 }, { 2, 3, 2 }, { 0, 2, 6 }, { 2, 8, 32 }, { 0, 3, 2 } };
+    int v;
+    for (v = -1; v < 7; v++) {
+      struct jpeg_decompress_struct dd; struct jpeg_error_mgr e;
+      void *raw = NULL; unsigned char *buf = NULL, *orig = NULL; JSAMPROW *rows = NULL;
+      dd.err = mkerr(&e);
+      if (setjmp(jb)) {
+        printf(" p565:v%d=ERR(%d)", v, last_err);
+      } else {
+        int mis = v < 0 ? 0 : V565[v][0], lines = v < 0 ? 1 : V565[v][1], pad = v < 0 ? 0 : V565[v][2];
+        int ps = v < 0 ? 3 : 2, pitch, x, y, tc = 0; size_t n, k; uint64_t hh = FNV0;
+        jpeg_create_decompress(&dd);
+        jpeg_mem_src(&dd, jpg, (unsigned long)jlen);
+        jpeg_read_header(&dd, TRUE);
+        dd.dct_method = (p->flags & 1) ? JDCT_FASTEST : JDCT_ISLOW;
+        dd.do_fancy_upsampling = !((p->flags >> 4) & 1);
+        dd.scale_num = sf.num; dd.scale_denom = sf.denom;
+        dd.out_color_space = v < 0 ? JCS_RGB : JCS_RGB565;
+        dd.dither_mode = JDITHER_NONE;
+        jpeg_start_decompress(&dd);
+        pitch = (int)dd.output_width * ps + pad;
+        n = (size_t)pitch * dd.output_height;
+        raw = aligned_alloc(16, (n + 64 + 15) / 16 * 16);
+        buf = (unsigned char *)raw + mis; orig = malloc(n + 8);
+        rows = malloc(sizeof(JSAMPROW) * (dd.output_height + 1));
+        sm_state = vseed++;
+        junk(buf, 8, n);
+        memcpy(orig, buf, n);
+        for (y = 0; y < (int)dd.output_height; y++) rows[y] = buf + (size_t)y * pitch;
+        while (dd.output_scanline < dd.output_height) jpeg_read_scanlines(&dd, rows + dd.output_scanline, lines);
+        for (y = 0; y < (int)dd.output_height; y++) {
+          for (x = 0; x < (int)dd.output_width; x++) {
+            int px;
+            if (v < 0) { int r = rows[y][3 * x], g = rows[y][3 * x + 1], b = rows[y][3 * x + 2]; px = ((r << 8) & 0xF800) | ((g << 3) & 0x7E0) | (b >> 3); }
+            else px = rows[y][2 * x] | (rows[y][2 * x + 1] << 8);
+            hh = fnv_int(hh, px);
+          }
+          for (k = (size_t)dd.output_width * ps; k < (size_t)pitch; k++) if (rows[y][k] != orig[(size_t)y * pitch + k]) tc++;
+        }
+        if (v < 0) printf(" p565:packedRGB=%016llx.0.0", (unsigned long long)hh);
+        else printf(" p565:a%dl%dp%d=%016llx.0.%d", mis, lines, pad, (unsigned long long)hh, tc);
+        jpeg_finish_decompress(&dd);
+      }
+      jpeg_destroy_decompress(&dd);
+      free(raw); free(orig); free(rows);
+    }
   }
   fputs("\n", stdout);
 done:
